@@ -150,6 +150,61 @@ def _detached_target_orders(rep):
                         {'scenario': 'detached-target', 'order': list(order)}, cls='K1' if k1 else None)
 
 
+def _nondefault_effect_orders(rep):
+    """A projectable effect that is not the type's default effect (it runs through an effect mode) follows the target
+    like the default one: all orders of {set the mode, set the target} after the fit is set up, then re-target to
+    nothing, back, to another ship, and switch the mode off."""
+    from eos import EffectMode, Fit, ModuleHigh, Ship, SolarSystem, State
+    from eos.const.eos import ModAffecteeFilter, ModAggregateMode, ModDomain, ModOperator
+    from eos.const.eve import EffectCategoryId
+    from eos.eve_obj.modifier import DogmaModifier
+    ch = mem.MemCache()
+    a, b, c = ch.mkattr(stackable=True), ch.mkattr(stackable=True), ch.mkattr(stackable=True)
+
+    def eff(tgt, op):
+        return ch.mkeffect(category_id=EffectCategoryId.target, modifiers=(DogmaModifier(
+            affectee_filter=ModAffecteeFilter.item, affectee_domain=ModDomain.target, affectee_attr_id=tgt,
+            operator=op, aggregate_mode=ModAggregateMode.stack, affector_attr_id=c.id),))
+    e1, e2 = eff(a.id, ModOperator.post_percent), eff(b.id, ModOperator.mod_add)
+    modt = ch.mktype(attrs={c.id: 10}, effects=[e1, e2], default_effect=e1)
+    shipt = ch.mktype(attrs={a.id: 100, b.id: 1})
+    for order in itertools.permutations(['mode', 'target']):
+        for tail in itertools.permutations(['none', 'back', 'other', 'mode-off']):
+            ss = SolarSystem(source=mem.source(ch))
+            f, g, h = Fit(solar_system=ss), Fit(solar_system=ss), Fit(solar_system=ss)
+            s1, s2 = Ship(shipt.id), Ship(shipt.id)
+            g.ship, h.ship = s1, s2
+            m = ModuleHigh(modt.id, state=State.active)
+            f.modules.high.append(m)
+            tgt, on = None, False
+            steps = list(order) + list(tail)
+            for st in steps:
+                if st == 'mode':
+                    m.set_effect_mode(e2.id, EffectMode.state_compliance)
+                    on = True
+                elif st == 'mode-off':
+                    m.set_effect_mode(e2.id, EffectMode.full_compliance)
+                    on = False
+                elif st in ('target', 'back'):
+                    m.target = tgt = s1
+                elif st == 'none':
+                    m.target = tgt = None
+                else:
+                    m.target = tgt = s2
+                for sh in (s1, s2):
+                    want = (110.00000000000001 if tgt is sh else 100, 11 if (tgt is sh and on) else 1)
+                    got = (sh.attrs[a.id], sh.attrs[b.id])
+                    rep.case(kind='order-nondefault-effect')
+                    if not (C.close(got[0], want[0]) and C.close(got[1], want[1])):
+                        rep.violate('after %s the %s ship sees %r instead of %r (second value: the non-default effect)'
+                                    % ('>'.join(steps[:steps.index(st) + 1]), 'first' if sh is s1 else 'second', got, want),
+                                    {'scenario': 'nondefault-effect', 'order': steps})
+                        break
+                else:
+                    continue
+                break
+
+
 def _fleet_universe():
     from eos.const.eos import ModAffecteeFilter, ModAggregateMode, ModOperator
     from eos.const.eve import AttrId, EffectCategoryId, EffectId
@@ -262,6 +317,7 @@ def correspondence(ctx):
 def oracle(ctx):
     _projection_orders(ctx.report)
     _detached_target_orders(ctx.report)
+    _nondefault_effect_orders(ctx.report)
     _fleet_orders(ctx.report)
     ctx.report.exhaustive = None
 
